@@ -1,4 +1,4 @@
-import Ledger.Sql.Value
+import Ledger.Sql.Builtins
 
 /-!
 # Pure facts on LeanPG values: `==` is reflexive (needed where the evaluator compares row versions)
@@ -43,5 +43,97 @@ theorem Value.beqList_refl : ∀ (l : List Value), Value.beqList l l = true
 end
 
 instance : ReflBEq Value := ⟨fun {a} => Value.beq_refl a⟩
+
+/-! ### comparisons and operators on typed values -/
+
+theorem cmpStr_eq (x y : String) : (cmpStr x y == Ordering.eq) = (x == y) := by
+  unfold cmpStr
+  by_cases h : x < y
+  · have : x ≠ y := by intro e; subst e; exact String.lt_irrefl _ h
+    simp [h, this]
+  · by_cases e : x = y <;> simp [h, e]
+
+theorem compareForSort_text (x y : String) : compareForSort (.text x) (.text y) = .ok (cmpStr x y) := by
+  simp [compareForSort, compareValues, compareScalar]
+  rfl
+
+theorem cmpInt_lt (x y : Int) : (cmpInt x y == Ordering.lt) = decide (x < y) := by
+  unfold cmpInt
+  by_cases h : x < y
+  · simp [h]
+  · by_cases e : x = y <;> simp [h, e]
+
+theorem cmpInt_eq (x y : Int) : (cmpInt x y == Ordering.eq) = decide (x = y) := by
+  unfold cmpInt
+  by_cases h : x < y
+  · have : x ≠ y := by omega
+    simp [h, this]
+  · by_cases e : x = y <;> simp [h, e]
+
+theorem cmpInt_gt (x y : Int) : (cmpInt x y == Ordering.gt) = decide (y < x) := by
+  unfold cmpInt
+  by_cases h : x < y
+  · have : ¬ y < x := by omega
+    simp [h, this]
+  · by_cases e : x = y
+    · subst e; simp
+    · have : y < x := by omega
+      simp [h, e, this]
+
+theorem cmpStr_eq' (x y : String) : (cmpStr x y == Ordering.eq) = decide (x = y) := by
+  unfold cmpStr
+  by_cases h : x < y
+  · have : x ≠ y := by intro e; subst e; exact String.lt_irrefl _ h
+    simp [h, this]
+  · by_cases e : x = y <;> simp [h, e]
+
+theorem evalBinop_eq_text (a b : String) : evalBinop .eq (.text a) (.text b) = .ok (.bool (decide (a = b))) := by
+  simp [evalBinop, compareValues, compareScalar, ofTruth, cmpStr_eq']
+  rfl
+theorem evalBinop_eq_ts (a b : Int) : evalBinop .eq (.ts a) (.ts b) = .ok (.bool (decide (a = b))) := by
+  simp [evalBinop, compareValues, compareScalar, ofTruth, cmpInt_eq]
+  rfl
+theorem evalBinop_lt_ts (a b : Int) : evalBinop .lt (.ts a) (.ts b) = .ok (.bool (decide (a < b))) := by
+  simp [evalBinop, compareValues, compareScalar, ofTruth, cmpInt_lt]
+  rfl
+theorem evalBinop_gt_ts (a b : Int) : evalBinop .gt (.ts a) (.ts b) = .ok (.bool (decide (b < a))) := by
+  simp [evalBinop, compareValues, compareScalar, ofTruth, cmpInt_gt]
+  rfl
+theorem evalBinop_lt_int (a b : Int) : evalBinop .lt (.int a) (.int b) = .ok (.bool (decide (a < b))) := by
+  simp [evalBinop, compareValues, compareScalar, ofTruth, cmpInt_lt]
+  rfl
+theorem evalBinop_eq_int (a b : Int) : evalBinop .eq (.int a) (.int b) = .ok (.bool (decide (a = b))) := by
+  simp [evalBinop, compareValues, compareScalar, ofTruth, cmpInt_eq]
+  rfl
+theorem truth_bool (b : Bool) : (Value.bool b).truth = .ok (some b) := rfl
+
+
+theorem evalBinop_add_int (a b : Int) : evalBinop .add (.int a) (.int b) = .ok (.int (a + b)) := by
+  simp [evalBinop, Value.isNull]
+  rfl
+
+theorem compareForSort_int (a b : Int) : compareForSort (.int a) (.int b) = .ok (cmpInt a b) := by
+  simp [compareForSort, compareValues, compareScalar]; rfl
+
+theorem cmpStr_ne' (a b : String) : (cmpStr a b != Ordering.eq) = (a != b) := by
+  show (!(cmpStr a b == Ordering.eq)) = !(a == b)
+  rw [cmpStr_eq']
+  by_cases h : a = b <;> simp [h]
+
+theorem compareForSort_text' (x y : String) : compareForSort (.text x) (.text y) = .ok (cmpStr x y) := by
+  simp [compareForSort, compareValues, compareScalar]
+  rfl
+
+theorem evalBinop_ne_text (a b : String) : evalBinop .ne (.text a) (.text b) = .ok (.bool (a != b)) := by
+  simp [evalBinop, compareValues, compareScalar, ofTruth, cmpStr_ne']
+  rfl
+
+theorem compareForSort_null_text (q : String) : compareForSort .null (.text q) = .ok Ordering.gt := rfl
+
+theorem cmpInt_lt_iff (a b : Int) : cmpInt a b = Ordering.lt ↔ a < b := by
+  unfold cmpInt
+  by_cases h : a < b
+  · simp [h]
+  · by_cases e : a = b <;> simp [h, e]
 
 end Ledger.Sql
